@@ -126,7 +126,7 @@ static void run_case(const std::vector<std::string> &hdr, const std::vector<std:
         sig.emplace();
         col = sig->get_collector();
         em = sig->get_emitter();
-        S().name_obj(&col->_state->_chain, "chain");
+        S().name_obj(&col->_state->VN_signal_state__chain, "chain");
         for (std::size_t i = 0; i < threads.size(); i++)
             if (threads[i][1] == "cb") own[i] = std::make_shared<isig>(*sig);
     }
@@ -175,7 +175,7 @@ static void run_case(const std::vector<std::string> &hdr, const std::vector<std:
                 vshim::Sched::tag() = tid;
                 hook_listener(tid, [&, tid](isig::collector c) {
                     log("op " + std::to_string(tid) + " reg");
-                    S().name_obj(&c._state->_chain, "chain");
+                    S().name_obj(&c._state->VN_signal_state__chain, "chain");
                     em = isig(c).get_emitter();
                     col = std::move(c);
                     published.store(true);      // a scheduling point: the other threads may use the collector at once
